@@ -2,6 +2,7 @@
   C08 — any well-formed third-party tape is read exactly; list and extract agree.
 -/
 import MotoModel.Proofs.TapeRead
+import MotoModel.Proofs.TapeFiles
 namespace Moto.C08
 open Moto Moto.Tape
 
@@ -123,5 +124,81 @@ theorem list_extract_agree (verbose : Bool) (archive : Str) (into : Option Str) 
     (h : (extract verbose archive into tape).status = .ret 0) :
     (enumerate verbose tape).status = .ret 0 ∧ (enumerate verbose tape).out = (extract verbose archive into tape).out := by
   exact list_extract_agree_dir verbose (targetDirOf archive into) tape h
+
+/-! ### from blocks to files -/
+
+/-- a file as a third-party writer may have cut it: any number of data blocks of any sizes -/
+structure TFile where
+  name : Str
+  ext : Str
+  kind : Nat
+  mode : Nat
+  chunks : List Bytes
+
+def TFile.frames (f : TFile) : List Bytes := fileFrames f.name f.ext f.kind f.mode f.chunks
+def TFile.path (f : TFile) : Str := f.name ++ [46] ++ f.ext
+
+/-- the extractor over the blocks of a list of files, however each file was cut into data blocks:
+    every file written once, in order, its content the concatenation of its data blocks -/
+theorem readLoop_tfiles (dir : Str) (fs : List TFile) : ∀ (s : RState),
+    (∀ f ∈ fs, NameOK f.name f.ext) →
+    ∃ s', readLoop true dir s (fs.flatMap TFile.frames) = (.ret 0, s')
+      ∧ s'.writes = s.writes ++ fs.map (fun f => (pathJoin dir f.path, f.chunks.flatten))
+      ∧ (s.l.verbose = false → s'.out = s.out ++ fs.map TFile.path) := by
+  induction fs with
+  | nil => intro s _; exact ⟨s, by simp [readLoop], by simp, by simp⟩
+  | cons f rest ih =>
+    intro s hn
+    simp only [List.flatMap_cons, TFile.frames]
+    obtain ⟨l', e, hv, _⟩ := readLoop_file dir f.name f.ext f.kind f.mode f.chunks (hn f (by simp)) s (rest.flatMap TFile.frames)
+    rw [e]
+    obtain ⟨s', e2, hw, ho⟩ := ih _ (fun f' hf' => hn f' (by simp [hf']))
+    refine ⟨s', e2, ?_, ?_⟩
+    · rw [hw]; simp [TFile.path]
+    · intro hq
+      rw [ho (by simp [hv, hq])]
+      simp [lineOf, endLine, hq, TFile.path]
+
+/-- **C08 (list and extract recover exactly the files the tape encodes)**: a tape written by anyone —
+    an idle gap, then for each file a leader block carrying its name, any number of data blocks of any
+    sizes up to 254, an end block; every block behind a run of at least three 0x01 and the marker,
+    followed by an idle gap of any length without 0x3C; anything without 0x3C after the last block —
+    is extracted as exactly those files: names, order, and as content the concatenation of the data
+    blocks; the quiet listing names the same files in the same order. -/
+theorem third_party_tape_read_exactly (pre tail : Bytes) (bs : List Spec.K7.WBlock) (fs : List TFile)
+    (hpre : 60 ∉ pre) (ht : 60 ∉ tail) (hwf : ∀ b ∈ bs, b.wf)
+    (hfiles : bs.map (fun b => Spec.K7.frame b.ty b.payload) = fs.flatMap TFile.frames)
+    (hn : ∀ f ∈ fs, NameOK f.name f.ext) (v : Bool) (archive : Str) (into : Option Str) :
+    (extract v archive into (Spec.K7.render pre bs ++ tail)).status = .ret 0
+    ∧ (extract v archive into (Spec.K7.render pre bs ++ tail)).writes
+        = fs.map (fun f => (pathJoin (targetDirOf archive into) f.path, f.chunks.flatten))
+    ∧ (enumerate false (Spec.K7.render pre bs ++ tail)).status = .ret 0
+    ∧ (enumerate false (Spec.K7.render pre bs ++ tail)).out = fs.map TFile.path := by
+  have hread := read_blocks_padded pre tail bs hpre ht hwf
+  rw [hfiles] at hread
+  have hx : ∀ (v : Bool) (dir : Str), ∃ s', readLoop true dir { l := { verbose := v } } (readAll (Spec.K7.render pre bs ++ tail)) = (.ret 0, s')
+      ∧ s'.writes = fs.map (fun f => (pathJoin dir f.path, f.chunks.flatten))
+      ∧ (v = false → s'.out = fs.map TFile.path) := by
+    intro v dir
+    rw [hread]
+    obtain ⟨s', e, hw, ho⟩ := readLoop_tfiles dir fs { l := { verbose := v } } hn
+    exact ⟨s', e, by rw [hw]; simp, fun hv => by rw [ho hv]; simp⟩
+  obtain ⟨sx, ex, hwx, _⟩ := hx v (targetDirOf archive into)
+  obtain ⟨sq, eq, _, hoq⟩ := hx false []
+  have hl := list_extract_agree_dir false [] _ (by rw [eq])
+  refine ⟨?_, ?_, hl.1, ?_⟩
+  · simp only [extract]; rw [ex]
+  · simp only [extract]; rw [ex]; exact hwx
+  · rw [hl.2, eq]; exact hoq rfl
+
+/-- non-vacuity: one file cut into blocks of 3, 0 and 1 bytes, leaders of 3 and 40 bytes, gaps -/
+example : let f : TFile := ⟨str "A", str "BAS", 0, 0, [[1, 2, 3], [], [60]]⟩
+    let bs : List Spec.K7.WBlock := [⟨3, 0, Spec.K7.pad 8 f.name ++ Spec.K7.pad 3 f.ext ++ [0, 0, 0], [0, 0]⟩, ⟨40, 1, [1, 2, 3], []⟩,
+      ⟨3, 1, [], [7]⟩, ⟨5, 1, [60], []⟩, ⟨3, 255, [], [0]⟩]
+    (∀ b ∈ bs, b.wf) ∧ bs.map (fun b => Spec.K7.frame b.ty b.payload) = [f].flatMap TFile.frames := by
+  refine ⟨?_, by decide⟩
+  intro b hb
+  simp only [List.mem_cons, List.mem_nil_iff, or_false] at hb
+  rcases hb with rfl | rfl | rfl | rfl | rfl <;> exact ⟨by decide, by decide, by decide⟩
 
 end Moto.C08
